@@ -333,6 +333,30 @@ Fixpoint ups_loop (n : nat) (b : buf) (offset : Z) : res (buf * Z) :=
   | S k => do r <- path_append b offset dotdot_elem; ups_loop k (fst r) (snd r)
   end.
 
+(* the assembly stage of zix_path_lexically_relative: allocate, write the up-references, then the
+   rest of path (or its trailing separator).  dir_end = path_root.dir.end, a_begin = a.range.begin *)
+Definition rel_assemble (p : str) (dir_end a_begin n_up : Z) : res (option buf) :=
+  let path_len := slen p in
+  let rel_len := n_up * 3 + path_len - a_begin in
+  let rel := calloc_buf (rel_len + 1) in
+  do r1 <- ups_loop (Z.to_nat n_up) rel 0;
+  let '(rel, offset) := r1 in
+  do r2 <-
+    (if a_begin <? path_len then
+       do suffix <- rd_range p a_begin (path_len - a_begin);
+       path_append rel offset suffix
+     else if negb (n_up =? 0) && (path_len >? dir_end) then
+       do last <- rd p (path_len - 1);
+       if is_sep last then
+         do last' <- rd p (path_len - 1);
+         do rel' <- wr rel offset [last'];
+         Ok (rel', offset + 1)
+       else Ok (rel, offset)
+     else Ok (rel, offset));
+  let '(rel, offset) := r2 in
+  do rel <- wr rel offset [0];
+  Ok (Some rel).
+
 (* ---- zix_path_lexically_relative(allocator, path, base); None = NULL result *)
 Definition zix_path_lexically_relative (p base : str) : res (option buf) :=
   do path_root <- root_slices (Some p);
@@ -365,28 +389,7 @@ Definition zix_path_lexically_relative (p base : str) : res (option buf) :=
         let n_up := if istate_eqb (it_state a) ROOT_DIRECTORY then 0 else n_non_empty - n_base_up in
         if (n_up =? 0) && (a_end || is_empty_range (it_range a)) then
           do r <- string_view_copy dot_elem; Ok (Some r)
-        else
-          let path_len := slen p in
-          let a_begin := fst (it_range a) in
-          let rel_len := n_up * 3 + path_len - a_begin in
-          let rel := calloc_buf (rel_len + 1) in
-          do r1 <- ups_loop (Z.to_nat n_up) rel 0;
-          let '(rel, offset) := r1 in
-          do r2 <-
-            (if a_begin <? path_len then
-               do suffix <- rd_range p a_begin (path_len - a_begin);
-               path_append rel offset suffix
-             else if negb (n_up =? 0) && (path_len >? snd (snd path_root)) then
-               do last <- rd p (path_len - 1);
-               if is_sep last then
-                 do last' <- rd p (path_len - 1);
-                 do rel' <- wr rel offset [last'];
-                 Ok (rel', offset + 1)
-               else Ok (rel, offset)
-             else Ok (rel, offset));
-          let '(rel, offset) := r2 in
-          do rel <- wr rel offset [0];
-          Ok (Some rel).
+        else rel_assemble p (snd (snd path_root)) (fst (it_range a)) n_up.
 
 (* observable outputs *)
 Definition buf_text (b : buf) : str := c_text (b_cells b).
